@@ -37,6 +37,19 @@ def run(rep, idx, tier):
     from .c20 import plain_member_directions
     rep.require("C12.6", 4)
     plain_member_directions(rep, idx, "C12.6", only_module="csr/action.py")
+    # members of the field actions: names, directions and widths as documented (r_stb / w_stb one bit, data as wide as the field)
+    rep.require("C12.7", 10)
+    from .c20 import member_table
+    PORT = ("In", "FieldPort.Signature(shape, access)", None)
+    for spec, table in (("csr/action:R", {"r_data": ("In", "shape", None), "r_stb": ("Out", "1", None), "port": PORT}),
+                        ("csr/action:W", {"w_data": ("Out", "shape", None), "w_stb": ("Out", "1", None), "port": PORT}),
+                        ("csr/action:RW", {"data": ("Out", "shape", None), "port": PORT}),
+                        ("csr/action:RW1C", {"data": ("Out", "shape", None), "set": ("In", "shape", None), "port": PORT}),
+                        ("csr/action:RW1S", {"data": ("Out", "shape", None), "clear": ("In", "shape", None), "port": PORT})):
+        try:
+            member_table(rep, idx, idx.find_class(spec), table, rule="C12.7")
+        except Exception as e:
+            rep.unk("C12.7", "-", f"{spec}: member table", f"cannot decide: {type(e).__name__}: {e}")
     from . import glue
     glue.reset_discipline(rep, "C12.5", idx, ["csr/action:RW", "csr/action:RW1C", "csr/action:RW1S"],
                           allowed_init=[(("RW", "_storage"), "init"), (("RW1C", "_storage"), "init"), (("RW1S", "_storage"), "init")])
